@@ -1,24 +1,36 @@
------------------------------- MODULE TraceVdi ------------------------------
-(* Trace validation for VDI: every recorded public call on the real           *)
-(* dissect.hypervisor.disk.vdi.VDI object must be a step the specification    *)
-(* allows.  Many traces per file; one verdict line per trace.                 *)
-EXTENDS Vdi, TraceCommon, Json, IOUtils
+----------------------------- MODULE TraceDisk -----------------------------
+(* Trace validation for all disk readers (direction B).  Every recorded       *)
+(* public call on a real stream object must be a step the specification       *)
+(* allows: position arithmetic and EOF clamp as in C08, content as the        *)
+(* format module's CellSrc.  Many traces per file; one verdict line per trace.*)
+EXTENDS Common, TraceCommon, Json, IOUtils
 
-VARIABLES tid, l, pos
+CONSTANTS N, CB, P, MaxTail
+VARIABLES img, view, last, tid, l, pos
+vars  == <<img, view, last>>
 tvars == <<vars, tid, l, pos>>
 
-Traces == ndJsonDeserialize(IOEnv.TRACE_FILE)
+Vdi == INSTANCE Vdi
+Vhd == INSTANCE Vhd
 
+Traces == ndJsonDeserialize(IOEnv.TRACE_FILE)
 T      == Traces[tid]
-ImgOf(j) == [n |-> j.n, cb |-> 1, map |-> [b \in 0..j.n-1 |-> j.map[b + 1]], size |-> j.n, parent |-> j.parent]
-Src(q) == CellSrc(ImgOf(T.img), q)
+
+\* JSON arrays are 1-based sequences; the modules use 0-based functions
+Fn0(s) == [b \in 0..Len(s)-1 |-> s[b + 1]]
+
+VdiImg(j) == [n |-> j.n, cb |-> 1, map |-> Fn0(j.map), size |-> j.n, parent |-> j.parent]
+VhdImg(j) == [kind |-> j.kind, n |-> j.n, cb |-> j.cb, bat |-> Fn0(j.bat), size |-> j.size, foot511 |-> j.foot511]
+
+Src(q) == CASE T.fmt = "vdi" -> Vdi!CellSrc(VdiImg(T.img), q)
+            [] T.fmt = "vhd" -> Vhd!CellSrc(VhdImg(T.img), q)
 
 Ev == T.events[l]
 
 ReadOK(ev, at) ==
   /\ ev.len = ExpectLen(T.sizeB, at, ev.n)
   /\ TotalLen(ev.runs) = ev.len
-  /\ RunsOK(Src, ev.runs, at, T.cellB, T.bases, T.pbase)
+  /\ RunsOK(Src, ev.runs, at, T.geo)
 
 EventOK(ev) ==
   CASE ev.e = "open"  -> ev.size = T.sizeB
@@ -27,6 +39,11 @@ EventOK(ev) ==
     [] ev.e \in {"read", "readinto"} -> ev.pos0 = pos /\ ReadOK(ev, pos) /\ ev.tell = pos + ev.len
     [] ev.e = "peek"  -> ev.pos0 = pos /\ ReadOK(ev, pos) /\ ev.tell = pos
     [] ev.e = "readoffset" -> ReadOK(ev, ev.o) /\ ev.tell = ev.o + ev.len
+    \* sector interface: exactly c sectors of guest content, stream position untouched
+    [] ev.e = "sectors" -> /\ ev.len = ev.c * T.sector
+                           /\ TotalLen(ev.runs) = ev.len
+                           /\ RunsOK(Src, ev.runs, ev.s * T.sector, T.geo)
+                           /\ ev.tell = pos
     [] OTHER -> FALSE
 
 NewPos(ev) ==
@@ -42,7 +59,11 @@ Clause(ev) ==
     IF ev.e # "readoffset" /\ ev.pos0 # pos THEN "position-before"
     ELSE IF ev.len # ExpectLen(T.sizeB, at, ev.n) THEN "length"
     ELSE IF TotalLen(ev.runs) # ev.len THEN "runs-length"
-    ELSE IF ~RunsOK(Src, ev.runs, at, T.cellB, T.bases, T.pbase) THEN "content"
+    ELSE IF ~RunsOK(Src, ev.runs, at, T.geo) THEN "content"
+    ELSE "position-after"
+  ELSE IF ev.e = "sectors" THEN
+    IF ev.len # ev.c * T.sector \/ TotalLen(ev.runs) # ev.len THEN "length"
+    ELSE IF ~RunsOK(Src, ev.runs, ev.s * T.sector, T.geo) THEN "content"
     ELSE "position-after"
   ELSE ev.e
 
